@@ -112,7 +112,10 @@ def pointset(family, d, n, seed):
 # --------------------------------------------------------------------------------------------
 
 def union_key(u):
-    return core.digest([bound_structure(u), np.asarray(u.block).astype(int), int(u.n_points_min)])
+    """structural key of a union: EVERY attribute reachable from it (a cache or flag added by a later
+    change is included automatically) except the sampling progress (proposal buffer, counters) and the
+    generators, which split/trim do not read"""
+    return core.digest(u, exclude=('points', 'n_sample', 'n_reject'), deep=('rng',))
 
 
 def union_key_noblock(u):
